@@ -278,10 +278,12 @@ def splitTierEntries(
             continue
         intervalLength = (end - start) / float(len(labelList))
 
+        # Neighbouring words share one boundary and the last word ends exactly
+        # where the entry ends (start + intervalLength * n can be off by an ulp)
+        boundaries = [start + intervalLength * i for i in range(len(labelList))]
+        boundaries.append(end)
         newSubEntries = [
-            Interval(
-                start + intervalLength * i, start + intervalLength * (i + 1), label
-            )
+            Interval(boundaries[i], boundaries[i + 1], label)
             for i, label in enumerate(labelList)
         ]
         newEntries.extend(newSubEntries)
